@@ -41,7 +41,7 @@ def c04_projects(quick: bool, rng: random.Random) -> List[Dict[str, Any]]:
     ps += list(families.t_c04_pkginit())
     ps += list(families.t_c04_class_members()) + list(families.t_c04_generations())
     ps += list(families.t8_prefix_roots()) + list(families.t14_two_roots_facade())
-    ps += [p for p in families.t3_reexport() if p["meta"].get("idiom") in ("moved-module", "module-alias-handed-on")
+    ps += [p for p in families.t3_reexport() if p["meta"].get("idiom") in ("moved-module", "module-alias-handed-on", "names-inside-moved-class")
            or (p["meta"].get("form") == "plain" and p["meta"].get("consumers") in (["o"], ["o2"], ["o", "r"]))]
     ps += list(families.t1_base_chains())[:: (6 if quick else 1)] + list(families.t6_nested_packages())
     ps += list(families.t15_rebinding()) + list(families.t_c04_cycles()) + list(families.t17_how_all_is_written())
@@ -351,7 +351,7 @@ def check_pybind_vs_cpython(ctx: Ctx, proj: Dict[str, Any], rows: List[Dict[str,
 def _compare_entry(proj: Dict[str, Any], rows: List[Dict[str, Any]], o: Dict[str, Any], order: List[int]) -> int:
     pb: Dict[Tuple[int, int], Dict[str, List[int]]] = collections.defaultdict(dict)
     for r in rows:
-        if len(r["name"]) == 1:
+        if len(r["name"]) == 1 and not r.get("g"):      # (g: a module global seen from inside a class - not part of the class namespace)
             pb[(r["scope"][0], r["scope"][1])][r["name"][0]] = r["py"]
     idx = P.module_index_by_qname(proj)
     n = 0
